@@ -36,7 +36,7 @@ REACH = {"quick": {"cls:vector": 900, "cls:frame": 2000, "cls:geojson": 500, "cl
 
 WIDE = ["日本語", "ｗｉｄｅ", "é", "\U0001F600", "漢", "ö", "áb"]
 MULTI = ["line1\nline2", "a\nb\nc", "tab\there", "cr\r\nlf", "lone\rcr", "sep\u2028arator", "form\x0cfeed", "next\x85line", "para\u2029graph"]
-KINDS = ["bool", "int", "float", "str", "lstr", "ustr", "date", "datetime", "obool", "obj", "float32", "int32", "uint64", "bytes", "timedelta", "complex"]
+KINDS = ["bool", "int", "float", "str", "lstr", "ustr", "date", "datetime", "obool", "obj", "float32", "int32", "uint64", "bytes", "timedelta", "complex", "datetime_ns", "datetime_s", "int_be"]
 
 def _values(rng, kind, n):
     if kind == "float":
@@ -155,7 +155,6 @@ def _parse_frame(res, text, names, labels, nrow, max_rows, ctx):
                 if j >= 0:
                     found = True
                     lab_char = j + len(lab)
-                    pos_char = max(pos_char, min(len(h), j))
                     break
                 pos_block += 1
                 pos_char = lab_char = 0
